@@ -413,15 +413,15 @@ def reach_under(body, tb, env, start=0, stop_blocks=()):
     outside = None
     if start != 0:
         outside = set(body.normal_blocks()) - body.reachable(start)
-    R = {start}
+    seen = {start}
     saved = tb.allowed
     try:
-        for _round in range(12):
-            tb.allowed = frozenset(R | outside) if outside is not None else frozenset(R)
-            seen = {start}
-            work = [start]
-            while work:
-                b = work.pop()
+        changed = True
+        while changed:
+            changed = False
+            # definitions count once their block is known reachable (least fixpoint: the set only grows)
+            tb.allowed = frozenset(seen | outside) if outside is not None else frozenset(seen)
+            for b in sorted(seen):
                 if b in stop_blocks:
                     continue
                 t = body.term(b)
@@ -439,16 +439,13 @@ def reach_under(body, tb, env, start=0, stop_blocks=()):
                         if taken is None:
                             taken = t['otherwise']
                         succs = [taken]
-                for s in succs:
-                    if s not in seen:
-                        seen.add(s)
-                        work.append(s)
-            if seen <= R:
-                break
-            R |= seen
+                for s2 in succs:
+                    if s2 not in seen:
+                        seen.add(s2)
+                        changed = True
     finally:
         tb.allowed = saved
-    return R
+    return seen
 
 
 def find_terms(body, tb, pred):
